@@ -14,6 +14,8 @@ CONSTANTS MaxDim, MaxMut, Pairs
 Mutations(n) ==
     {[m |-> "setcard", key |-> "ORDER" \o ToString(d), val |-> v] : d \in 0 .. n - 1, v \in {"0", "1", "9", "-1", "1000000", "2.5", "'x'"}} \cup
     {[m |-> "delcard", key |-> "ORDER" \o ToString(d)] : d \in 0 .. n - 1} \cup
+    \* cards that carry no key/value pair (commentary, blank keyword) or a key without a (complete) value, among the auxiliary keys
+    {[m |-> "rawcard", cls |-> c] : c \in {"history", "comment", "blank-keyword", "blank-value", "no-equals", "unterminated-string"}} \cup
     {[m |-> "addcard", key |-> "ORDER", val |-> v] : v \in {"1", "7"}} \cup
     {[m |-> "setaxis", hdu |-> 0, axis |-> a, val |-> v] : a \in 1 .. n, v \in {0, 1, 1000}} \cup
     {[m |-> "setaxis", hdu |-> h, axis |-> 1, val |-> v] : h \in 1 .. n + 1, v \in {0, 1, 2, 1000}} \cup
